@@ -246,6 +246,7 @@ func decideCase(run *sim.Run, id int) {
 	T := w.Time.Unix() + lag // daemon clock (seconds); block time = T - lag
 	var flights []*inflight
 	revoted := false
+	repowers := 0
 	nTicks := int64(900)
 	lastAccepted := map[string]int64{} // signal -> block time of the last accepted submission
 	lastInterval := map[string]int64{} // signal -> interval in force at that time
@@ -275,6 +276,17 @@ func decideCase(run *sim.Run, id int) {
 				// FFF loses its only voter (removed from the current feeds), EEE appears, CCC loses one voter
 				btx = append(btx, vote(w.Users[2], allSignals[4:5]), vote(w.Users[0], allSignals[:2]))
 				logf("T=%d feed votes change", T)
+			} else if repowers < 4 && tick > 150 && rng.Chance(1, 90) {
+				// same signals, other powers: at the next feed update the intervals (and deviations) of signals that
+				// stay current shrink or grow while submissions are under way
+				repowers++
+				u := w.Users[1]
+				ids := allSignals[1:4]
+				if revoted && rng.Bool() {
+					u, ids = w.Users[0], allSignals[:2]
+				}
+				btx = append(btx, vote(u, ids))
+				logf("T=%d %s re-votes %v with other powers", T, u.Name, ids)
 			}
 			bt := time.Unix(T-lag, 0).UTC()
 			dt := bt.Sub(w.Time)
@@ -293,6 +305,13 @@ func decideCase(run *sim.Run, id int) {
 				for k := range feedsBefore {
 					if _, still := feedsAfter[k]; !still {
 						run.Count("A:feed-removed-from-list", 1)
+					}
+				}
+				for k, fb := range feedsBefore {
+					if fa, still := feedsAfter[k]; still && fa.Interval < fb.Interval {
+						run.Count("A:interval-shrunk-for-current-feed", 1)
+					} else if still && fa.Interval > fb.Interval {
+						run.Count("A:interval-grown-for-current-feed", 1)
 					}
 				}
 				logf("T=%d current feeds %v -> %v", T, keys(feedsBefore), keys(feedsAfter))
